@@ -44,18 +44,21 @@ OpsDef == <<
      [k |-> "rel", l |-> "OutputStream.messagesMu", m |-> "", seg |-> 0, rs |-> {}, ws |-> {}],
      [k |-> "acq", l |-> "IRCServer.ConfigMu", m |-> "W", seg |-> 0, rs |-> {}, ws |-> {}],
      [k |-> "sec", l |-> "", m |-> "", seg |-> 12, rs |-> {}, ws |-> {"IRCServer.Config"}],
+     [k |-> "rel", l |-> "IRCServer.ConfigMu", m |-> "", seg |-> 0, rs |-> {}, ws |-> {}],
+     [k |-> "acq", l |-> "IRCServer.ConfigMu", m |-> "R", seg |-> 0, rs |-> {}, ws |-> {}],
+     [k |-> "sec", l |-> "", m |-> "", seg |-> 13, rs |-> {"IRCServer.Config", "main.ircServer"}, ws |-> {}],
+     [k |-> "rel", l |-> "IRCServer.ConfigMu", m |-> "", seg |-> 0, rs |-> {}, ws |-> {}],
      [k |-> "acq", l |-> "FSM.sessionExpirationMu", m |-> "W", seg |-> 0, rs |-> {}, ws |-> {}],
-     [k |-> "sec", l |-> "", m |-> "", seg |-> 13, rs |-> {"IRCServer.Config"}, ws |-> {"FSM.sessionExpirationDur"}],
-     [k |-> "rel", l |-> "FSM.sessionExpirationMu", m |-> "", seg |-> 0, rs |-> {}, ws |-> {}],
-     [k |-> "rel", l |-> "IRCServer.ConfigMu", m |-> "", seg |-> 0, rs |-> {}, ws |-> {}]>>,
+     [k |-> "sec", l |-> "", m |-> "", seg |-> 14, rs |-> {}, ws |-> {"FSM.sessionExpirationDur"}],
+     [k |-> "rel", l |-> "FSM.sessionExpirationMu", m |-> "", seg |-> 0, rs |-> {}, ws |-> {}]>>,
    rall |-> {"FSM.ircstore", "FSM.store", "IRCServer.Config", "IRCServer.Config[]", "IRCServer.ServerCreation", "IRCServer.ServerPrefix", "IRCServer.ServerPrefix[]", "IRCServer.channels", "IRCServer.channels[]", "IRCServer.lastProcessed", "IRCServer.nicks", "IRCServer.nicks[]", "IRCServer.serverSessions", "IRCServer.serverSessions[]", "IRCServer.sessions", "IRCServer.sessions[]", "IRCServer.svsholds", "LevelDBStore.db", "LevelDBStore.useProtobuf", "OutputStream.db", "OutputStream.lastseen", "OutputStream.lastseen[]", "OutputStream.lastseen[][]", "OutputStream.messagesCache", "Session.Channels", "Session.Channels[]", "Session.Created", "Session.Id", "Session.LastActivity", "Session.Nick", "Session.Operator", "Session.Pass", "Session.Realname", "Session.RemoteAddr", "Session.Server", "Session.Username", "Session.auth", "Session.invitedTo", "Session.ircPrefix", "Session.loggedIn", "Session.modes", "Session.svid", "channel.name", "channel.nicks", "channel.nicks[]", "channel.nicks[][]", "ircCommand.Func", "ircCommand.MinParams", "ircserver.Commands", "ircserver.Commands[]", "ircserver.ErrNoSuchSession", "ircserver.ErrSessionLimitReached", "ircserver.ErrSessionNotYetSeen", "ircserver.authOper", "ircserver.captchaChallengesSent", "ircserver.captchasFailed", "ircserver.captchasVerified", "ircserver.messagesProcessed", "ircserver.nickToLowerReplacer", "ircserver.validChannelRe", "ircserver.validNickRe", "main.appliedMessages", "main.ircServer", "main.outputStream", "main.useProtobuf", "main.useProtobuf[]", "modeCmd.Mode", "modeCmd.Param"},
    wall |-> {"FSM.sessionExpirationDur", "IRCServer.Config", "IRCServer.Config[]", "IRCServer.channels[]", "IRCServer.lastProcessed", "IRCServer.nicks[]", "IRCServer.serverSessions", "IRCServer.serverSessions[]", "IRCServer.sessions[]", "IRCServer.svsholds[]", "OutputStream.batch", "OutputStream.lastseen", "OutputStream.messagesCache[]", "Session.AwayMsg", "Session.Channels[]", "Session.LastActivity", "Session.LastNonPing", "Session.LastSolvedCaptcha", "Session.Nick", "Session.Operator", "Session.Pass", "Session.Realname", "Session.RemoteAddr", "Session.Server", "Session.Username", "Session.deleted", "Session.invitedTo[]", "Session.ircPrefix", "Session.lastClientMessageId", "Session.loggedIn", "Session.modes", "Session.svid", "channel.bans", "channel.bans[]", "channel.key", "channel.modes", "channel.nicks[]", "channel.nicks[][]", "channel.topic", "channel.topicNick", "channel.topicTime"}],
   \* 2  (*main.FSM).Restore
   [name |-> "FSM.Restore", threads |-> {"fsm"}, steps |-> <<
      [k |-> "acq", l |-> "FSM.restoreMu", m |-> "W", seg |-> 0, rs |-> {}, ws |-> {}],
-     [k |-> "sec", l |-> "", m |-> "", seg |-> 1, rs |-> {"FSM.ReplaceState", "FSM.lastSnapshotState", "FSM.store", "OutputStream.db", "OutputStream.dirname", "main.appliedMessages", "main.ircServer", "main.network", "main.network[]", "main.raftDir", "main.raftDir[]", "main.useProtobuf", "main.useProtobuf[]"}, ws |-> {"FSM.ircstore", "FSM.lastSnapshotState[]", "main.ircStore", "main.outputStream"}],
+     [k |-> "sec", l |-> "", m |-> "", seg |-> 1, rs |-> {"(*raftstore.LevelDBStore).ConvertToProto.start", "FSM.ReplaceState", "FSM.lastSnapshotState", "FSM.store", "OutputStream.db", "OutputStream.dirname", "main.appliedMessages", "main.ircServer", "main.network", "main.network[]", "main.raftDir", "main.raftDir[]", "main.useProtobuf", "main.useProtobuf[]"}, ws |-> {"FSM.ircstore", "FSM.lastSnapshotState[]", "main.ircStore", "main.outputStream"}],
      [k |-> "acq", l |-> "LevelDBStore.mu", m |-> "W", seg |-> 0, rs |-> {}, ws |-> {}],
-     [k |-> "sec", l |-> "", m |-> "", seg |-> 2, rs |-> {"LevelDBStore.dir", "LevelDBStore.useProtobuf"}, ws |-> {"LevelDBStore.db"}],
+     [k |-> "sec", l |-> "", m |-> "", seg |-> 2, rs |-> {"(*raftstore.LevelDBStore).ConvertToProto.start", "LevelDBStore.dir", "LevelDBStore.useProtobuf"}, ws |-> {"LevelDBStore.db"}],
      [k |-> "rel", l |-> "LevelDBStore.mu", m |-> "", seg |-> 0, rs |-> {}, ws |-> {}],
      [k |-> "acq", l |-> "main.ircServerMu", m |-> "W", seg |-> 0, rs |-> {}, ws |-> {}],
      [k |-> "sec", l |-> "", m |-> "", seg |-> 3, rs |-> {}, ws |-> {"main.ircServer"}],
@@ -64,47 +67,50 @@ OpsDef == <<
      [k |-> "sec", l |-> "", m |-> "", seg |-> 4, rs |-> {}, ws |-> {"HTTP.ircServerUnlocked", "HTTP.ircStoreUnlocked", "HTTP.outputUnlocked"}],
      [k |-> "rel", l |-> "HTTP.mu", m |-> "", seg |-> 0, rs |-> {}, ws |-> {}],
      [k |-> "acq", l |-> "IRCServer.sessionsMu", m |-> "W", seg |-> 0, rs |-> {}, ws |-> {}],
-     [k |-> "acq", l |-> "IRCServer.ConfigMu", m |-> "W", seg |-> 0, rs |-> {}, ws |-> {}],
      [k |-> "acq", l |-> "IRCServer.lastProcessedMu", m |-> "W", seg |-> 0, rs |-> {}, ws |-> {}],
-     [k |-> "sec", l |-> "", m |-> "", seg |-> 5, rs |-> {"IRCServer.channels", "IRCServer.nicks", "IRCServer.sessions", "IRCServer.svsholds", "ircserver.nickToLowerReplacer"}, ws |-> {"IRCServer.Config", "IRCServer.channels[]", "IRCServer.lastProcessed", "IRCServer.nicks[]", "IRCServer.serverSessions", "IRCServer.serverSessions[]", "IRCServer.sessions[]", "IRCServer.svsholds[]"}],
+     [k |-> "sec", l |-> "", m |-> "", seg |-> 5, rs |-> {"IRCServer.channels", "IRCServer.nicks", "IRCServer.sessions", "IRCServer.svsholds", "ircserver.nickToLowerReplacer"}, ws |-> {"IRCServer.channels[]", "IRCServer.lastProcessed", "IRCServer.nicks[]", "IRCServer.serverSessions", "IRCServer.serverSessions[]", "IRCServer.sessions[]", "IRCServer.svsholds[]"}],
      [k |-> "rel", l |-> "IRCServer.lastProcessedMu", m |-> "", seg |-> 0, rs |-> {}, ws |-> {}],
+     [k |-> "rel", l |-> "IRCServer.sessionsMu", m |-> "", seg |-> 0, rs |-> {}, ws |-> {}],
+     [k |-> "acq", l |-> "IRCServer.ConfigMu", m |-> "W", seg |-> 0, rs |-> {}, ws |-> {}],
+     [k |-> "sec", l |-> "", m |-> "", seg |-> 6, rs |-> {}, ws |-> {"IRCServer.Config"}],
      [k |-> "rel", l |-> "IRCServer.ConfigMu", m |-> "", seg |-> 0, rs |-> {}, ws |-> {}],
-     [k |-> "sec", l |-> "", m |-> "", seg |-> 6, rs |-> {"IRCServer.ServerCreation", "IRCServer.ServerPrefix", "IRCServer.ServerPrefix[]", "IRCServer.channels", "IRCServer.nicks", "IRCServer.serverSessions", "IRCServer.serverSessions[]", "IRCServer.sessions", "IRCServer.svsholds", "Session.Channels", "Session.Created", "Session.Id", "Session.Server", "Session.auth", "Session.invitedTo", "channel.name", "channel.nicks", "ircCommand.Func", "ircCommand.MinParams", "ircserver.Commands", "ircserver.Commands[]", "ircserver.ErrSessionLimitReached", "ircserver.authOper", "ircserver.captchaChallengesSent", "ircserver.captchasFailed", "ircserver.captchasVerified", "ircserver.messagesProcessed", "ircserver.nickToLowerReplacer", "ircserver.validChannelRe", "ircserver.validNickRe", "modeCmd.Mode", "modeCmd.Param"}, ws |-> {"IRCServer.channels[]", "IRCServer.nicks[]", "IRCServer.sessions[]", "IRCServer.svsholds[]", "Session.AwayMsg", "Session.Channels[]", "Session.LastActivity", "Session.LastNonPing", "Session.LastSolvedCaptcha", "Session.Nick", "Session.Operator", "Session.Pass", "Session.Realname", "Session.RemoteAddr", "Session.Username", "Session.deleted", "Session.invitedTo[]", "Session.ircPrefix", "Session.lastClientMessageId", "Session.loggedIn", "Session.modes", "Session.svid", "channel.bans", "channel.bans[]", "channel.key", "channel.modes", "channel.nicks[]", "channel.nicks[][]", "channel.topic", "channel.topicNick", "channel.topicTime"}],
+     [k |-> "acq", l |-> "IRCServer.ConfigMu", m |-> "R", seg |-> 0, rs |-> {}, ws |-> {}],
+     [k |-> "sec", l |-> "", m |-> "", seg |-> 7, rs |-> {"IRCServer.Config", "main.ircServer"}, ws |-> {}],
+     [k |-> "rel", l |-> "IRCServer.ConfigMu", m |-> "", seg |-> 0, rs |-> {}, ws |-> {}],
+     [k |-> "acq", l |-> "FSM.sessionExpirationMu", m |-> "W", seg |-> 0, rs |-> {}, ws |-> {}],
+     [k |-> "sec", l |-> "", m |-> "", seg |-> 8, rs |-> {}, ws |-> {"FSM.sessionExpirationDur"}],
+     [k |-> "rel", l |-> "FSM.sessionExpirationMu", m |-> "", seg |-> 0, rs |-> {}, ws |-> {}],
+     [k |-> "acq", l |-> "IRCServer.sessionsMu", m |-> "W", seg |-> 0, rs |-> {}, ws |-> {}],
+     [k |-> "sec", l |-> "", m |-> "", seg |-> 9, rs |-> {"IRCServer.ServerCreation", "IRCServer.ServerPrefix", "IRCServer.ServerPrefix[]", "IRCServer.channels", "IRCServer.nicks", "IRCServer.serverSessions", "IRCServer.serverSessions[]", "IRCServer.sessions", "IRCServer.svsholds", "Session.Channels", "Session.Created", "Session.Id", "Session.Server", "Session.auth", "Session.invitedTo", "channel.name", "channel.nicks", "ircCommand.Func", "ircCommand.MinParams", "ircserver.Commands", "ircserver.Commands[]", "ircserver.ErrSessionLimitReached", "ircserver.authOper", "ircserver.captchaChallengesSent", "ircserver.captchasFailed", "ircserver.captchasVerified", "ircserver.messagesProcessed", "ircserver.nickToLowerReplacer", "ircserver.validChannelRe", "ircserver.validNickRe", "modeCmd.Mode", "modeCmd.Param"}, ws |-> {"IRCServer.channels[]", "IRCServer.nicks[]", "IRCServer.sessions[]", "IRCServer.svsholds[]", "Session.AwayMsg", "Session.Channels[]", "Session.LastActivity", "Session.LastNonPing", "Session.LastSolvedCaptcha", "Session.Nick", "Session.Operator", "Session.Pass", "Session.Realname", "Session.RemoteAddr", "Session.Username", "Session.deleted", "Session.invitedTo[]", "Session.ircPrefix", "Session.lastClientMessageId", "Session.loggedIn", "Session.modes", "Session.svid", "channel.bans", "channel.bans[]", "channel.key", "channel.modes", "channel.nicks[]", "channel.nicks[][]", "channel.topic", "channel.topicNick", "channel.topicTime"}],
      [k |-> "acq", l |-> "IRCServer.lastProcessedMu", m |-> "R", seg |-> 0, rs |-> {}, ws |-> {}],
-     [k |-> "sec", l |-> "", m |-> "", seg |-> 7, rs |-> {"IRCServer.lastProcessed", "ircserver.ErrNoSuchSession", "ircserver.ErrSessionNotYetSeen"}, ws |-> {}],
+     [k |-> "sec", l |-> "", m |-> "", seg |-> 10, rs |-> {"IRCServer.lastProcessed", "ircserver.ErrNoSuchSession", "ircserver.ErrSessionNotYetSeen"}, ws |-> {}],
      [k |-> "rel", l |-> "IRCServer.lastProcessedMu", m |-> "", seg |-> 0, rs |-> {}, ws |-> {}],
      [k |-> "acq", l |-> "IRCServer.ConfigMu", m |-> "R", seg |-> 0, rs |-> {}, ws |-> {}],
-     [k |-> "sec", l |-> "", m |-> "", seg |-> 8, rs |-> {"IRCServer.Config", "IRCServer.Config[]", "IRCServer.ServerPrefix", "IRCServer.ServerPrefix[]", "IRCServer.channels", "IRCServer.channels[]", "IRCServer.nicks", "IRCServer.nicks[]", "Session.Channels", "Session.Channels[]", "Session.Id", "Session.LastActivity", "Session.Nick", "Session.Pass", "Session.Realname", "Session.Username", "Session.loggedIn", "Session.modes", "Session.svid", "channel.name", "channel.nicks", "channel.nicks[]", "channel.nicks[][]", "ircserver.nickToLowerReplacer"}, ws |-> {"IRCServer.serverSessions", "IRCServer.serverSessions[]", "Session.Server", "Session.ircPrefix"}],
+     [k |-> "sec", l |-> "", m |-> "", seg |-> 11, rs |-> {"IRCServer.Config", "IRCServer.Config[]", "IRCServer.ServerPrefix", "IRCServer.ServerPrefix[]", "IRCServer.channels", "IRCServer.channels[]", "IRCServer.nicks", "IRCServer.nicks[]", "Session.Channels", "Session.Channels[]", "Session.Id", "Session.LastActivity", "Session.Nick", "Session.Pass", "Session.Realname", "Session.Username", "Session.loggedIn", "Session.modes", "Session.svid", "channel.name", "channel.nicks", "channel.nicks[]", "channel.nicks[][]", "ircserver.nickToLowerReplacer"}, ws |-> {"IRCServer.serverSessions", "IRCServer.serverSessions[]", "Session.Server", "Session.ircPrefix"}],
      [k |-> "rel", l |-> "IRCServer.ConfigMu", m |-> "", seg |-> 0, rs |-> {}, ws |-> {}],
      [k |-> "rel", l |-> "IRCServer.sessionsMu", m |-> "", seg |-> 0, rs |-> {}, ws |-> {}],
      [k |-> "acq", l |-> "IRCServer.sessionsMu", m |-> "R", seg |-> 0, rs |-> {}, ws |-> {}],
-     [k |-> "sec", l |-> "", m |-> "", seg |-> 9, rs |-> {"IRCServer.sessions", "IRCServer.sessions[]"}, ws |-> {}],
+     [k |-> "sec", l |-> "", m |-> "", seg |-> 12, rs |-> {"IRCServer.sessions", "IRCServer.sessions[]"}, ws |-> {}],
      [k |-> "acq", l |-> "IRCServer.lastProcessedMu", m |-> "R", seg |-> 0, rs |-> {}, ws |-> {}],
-     [k |-> "sec", l |-> "", m |-> "", seg |-> 10, rs |-> {"IRCServer.lastProcessed", "ircserver.ErrNoSuchSession", "ircserver.ErrSessionNotYetSeen"}, ws |-> {}],
+     [k |-> "sec", l |-> "", m |-> "", seg |-> 13, rs |-> {"IRCServer.lastProcessed", "ircserver.ErrNoSuchSession", "ircserver.ErrSessionNotYetSeen"}, ws |-> {}],
      [k |-> "rel", l |-> "IRCServer.lastProcessedMu", m |-> "", seg |-> 0, rs |-> {}, ws |-> {}],
      [k |-> "rel", l |-> "IRCServer.sessionsMu", m |-> "", seg |-> 0, rs |-> {}, ws |-> {}],
      [k |-> "acq", l |-> "IRCServer.sessionsMu", m |-> "W", seg |-> 0, rs |-> {}, ws |-> {}],
      [k |-> "acq", l |-> "IRCServer.ConfigMu", m |-> "W", seg |-> 0, rs |-> {}, ws |-> {}],
-     [k |-> "sec", l |-> "", m |-> "", seg |-> 11, rs |-> {"IRCServer.Config", "IRCServer.ServerPrefix", "IRCServer.channels", "IRCServer.nicks", "IRCServer.serverSessions", "IRCServer.serverSessions[]", "IRCServer.sessions", "IRCServer.sessions[]", "Session.Channels", "Session.Channels[]", "Session.Id", "Session.Nick", "Session.Operator", "Session.RemoteAddr", "Session.invitedTo", "Session.ircPrefix", "channel.name", "channel.nicks", "ircserver.nickToLowerReplacer"}, ws |-> {"IRCServer.Config[]", "IRCServer.channels[]", "IRCServer.nicks[]", "Session.deleted", "Session.invitedTo[]", "channel.nicks[]"}],
+     [k |-> "sec", l |-> "", m |-> "", seg |-> 14, rs |-> {"IRCServer.Config", "IRCServer.ServerPrefix", "IRCServer.channels", "IRCServer.nicks", "IRCServer.serverSessions", "IRCServer.serverSessions[]", "IRCServer.sessions", "IRCServer.sessions[]", "Session.Channels", "Session.Channels[]", "Session.Id", "Session.Nick", "Session.Operator", "Session.RemoteAddr", "Session.invitedTo", "Session.ircPrefix", "channel.name", "channel.nicks", "ircserver.nickToLowerReplacer"}, ws |-> {"IRCServer.Config[]", "IRCServer.channels[]", "IRCServer.nicks[]", "Session.deleted", "Session.invitedTo[]", "channel.nicks[]"}],
      [k |-> "rel", l |-> "IRCServer.ConfigMu", m |-> "", seg |-> 0, rs |-> {}, ws |-> {}],
      [k |-> "rel", l |-> "IRCServer.sessionsMu", m |-> "", seg |-> 0, rs |-> {}, ws |-> {}],
      [k |-> "acq", l |-> "IRCServer.lastProcessedMu", m |-> "W", seg |-> 0, rs |-> {}, ws |-> {}],
-     [k |-> "sec", l |-> "", m |-> "", seg |-> 12, rs |-> {}, ws |-> {"IRCServer.lastProcessed"}],
+     [k |-> "sec", l |-> "", m |-> "", seg |-> 15, rs |-> {}, ws |-> {"IRCServer.lastProcessed"}],
      [k |-> "rel", l |-> "IRCServer.lastProcessedMu", m |-> "", seg |-> 0, rs |-> {}, ws |-> {}],
      [k |-> "acq", l |-> "OutputStream.messagesMu", m |-> "W", seg |-> 0, rs |-> {}, ws |-> {}],
-     [k |-> "sec", l |-> "", m |-> "", seg |-> 13, rs |-> {"OutputStream.db", "OutputStream.lastseen[]", "OutputStream.lastseen[][]"}, ws |-> {"OutputStream.batch", "OutputStream.lastseen"}],
+     [k |-> "sec", l |-> "", m |-> "", seg |-> 16, rs |-> {"OutputStream.db", "OutputStream.lastseen[]", "OutputStream.lastseen[][]"}, ws |-> {"OutputStream.batch", "OutputStream.lastseen"}],
      [k |-> "acq", l |-> "OutputStream.cacheMu", m |-> "W", seg |-> 0, rs |-> {}, ws |-> {}],
-     [k |-> "sec", l |-> "", m |-> "", seg |-> 14, rs |-> {"OutputStream.lastseen", "OutputStream.lastseen[]", "OutputStream.messagesCache"}, ws |-> {"OutputStream.messagesCache[]"}],
+     [k |-> "sec", l |-> "", m |-> "", seg |-> 17, rs |-> {"OutputStream.lastseen", "OutputStream.lastseen[]", "OutputStream.messagesCache"}, ws |-> {"OutputStream.messagesCache[]"}],
      [k |-> "rel", l |-> "OutputStream.cacheMu", m |-> "", seg |-> 0, rs |-> {}, ws |-> {}],
      [k |-> "rel", l |-> "OutputStream.messagesMu", m |-> "", seg |-> 0, rs |-> {}, ws |-> {}],
-     [k |-> "acq", l |-> "IRCServer.ConfigMu", m |-> "W", seg |-> 0, rs |-> {}, ws |-> {}],
-     [k |-> "sec", l |-> "", m |-> "", seg |-> 15, rs |-> {}, ws |-> {"IRCServer.Config"}],
-     [k |-> "acq", l |-> "FSM.sessionExpirationMu", m |-> "W", seg |-> 0, rs |-> {}, ws |-> {}],
-     [k |-> "sec", l |-> "", m |-> "", seg |-> 16, rs |-> {"IRCServer.Config"}, ws |-> {"FSM.sessionExpirationDur"}],
-     [k |-> "rel", l |-> "FSM.sessionExpirationMu", m |-> "", seg |-> 0, rs |-> {}, ws |-> {}],
-     [k |-> "rel", l |-> "IRCServer.ConfigMu", m |-> "", seg |-> 0, rs |-> {}, ws |-> {}],
      [k |-> "rel", l |-> "FSM.restoreMu", m |-> "", seg |-> 0, rs |-> {}, ws |-> {}]>>,
-   rall |-> {"FSM.ReplaceState", "FSM.lastSnapshotState", "FSM.store", "IRCServer.Config", "IRCServer.Config[]", "IRCServer.ServerCreation", "IRCServer.ServerPrefix", "IRCServer.ServerPrefix[]", "IRCServer.channels", "IRCServer.channels[]", "IRCServer.lastProcessed", "IRCServer.nicks", "IRCServer.nicks[]", "IRCServer.serverSessions", "IRCServer.serverSessions[]", "IRCServer.sessions", "IRCServer.sessions[]", "IRCServer.svsholds", "LevelDBStore.dir", "LevelDBStore.useProtobuf", "OutputStream.db", "OutputStream.dirname", "OutputStream.lastseen", "OutputStream.lastseen[]", "OutputStream.lastseen[][]", "OutputStream.messagesCache", "Session.Channels", "Session.Channels[]", "Session.Created", "Session.Id", "Session.LastActivity", "Session.Nick", "Session.Operator", "Session.Pass", "Session.Realname", "Session.RemoteAddr", "Session.Server", "Session.Username", "Session.auth", "Session.invitedTo", "Session.ircPrefix", "Session.loggedIn", "Session.modes", "Session.svid", "channel.name", "channel.nicks", "channel.nicks[]", "channel.nicks[][]", "ircCommand.Func", "ircCommand.MinParams", "ircserver.Commands", "ircserver.Commands[]", "ircserver.ErrNoSuchSession", "ircserver.ErrSessionLimitReached", "ircserver.ErrSessionNotYetSeen", "ircserver.authOper", "ircserver.captchaChallengesSent", "ircserver.captchasFailed", "ircserver.captchasVerified", "ircserver.messagesProcessed", "ircserver.nickToLowerReplacer", "ircserver.validChannelRe", "ircserver.validNickRe", "main.appliedMessages", "main.ircServer", "main.network", "main.network[]", "main.raftDir", "main.raftDir[]", "main.useProtobuf", "main.useProtobuf[]", "modeCmd.Mode", "modeCmd.Param"},
+   rall |-> {"(*raftstore.LevelDBStore).ConvertToProto.start", "FSM.ReplaceState", "FSM.lastSnapshotState", "FSM.store", "IRCServer.Config", "IRCServer.Config[]", "IRCServer.ServerCreation", "IRCServer.ServerPrefix", "IRCServer.ServerPrefix[]", "IRCServer.channels", "IRCServer.channels[]", "IRCServer.lastProcessed", "IRCServer.nicks", "IRCServer.nicks[]", "IRCServer.serverSessions", "IRCServer.serverSessions[]", "IRCServer.sessions", "IRCServer.sessions[]", "IRCServer.svsholds", "LevelDBStore.dir", "LevelDBStore.useProtobuf", "OutputStream.db", "OutputStream.dirname", "OutputStream.lastseen", "OutputStream.lastseen[]", "OutputStream.lastseen[][]", "OutputStream.messagesCache", "Session.Channels", "Session.Channels[]", "Session.Created", "Session.Id", "Session.LastActivity", "Session.Nick", "Session.Operator", "Session.Pass", "Session.Realname", "Session.RemoteAddr", "Session.Server", "Session.Username", "Session.auth", "Session.invitedTo", "Session.ircPrefix", "Session.loggedIn", "Session.modes", "Session.svid", "channel.name", "channel.nicks", "channel.nicks[]", "channel.nicks[][]", "ircCommand.Func", "ircCommand.MinParams", "ircserver.Commands", "ircserver.Commands[]", "ircserver.ErrNoSuchSession", "ircserver.ErrSessionLimitReached", "ircserver.ErrSessionNotYetSeen", "ircserver.authOper", "ircserver.captchaChallengesSent", "ircserver.captchasFailed", "ircserver.captchasVerified", "ircserver.messagesProcessed", "ircserver.nickToLowerReplacer", "ircserver.validChannelRe", "ircserver.validNickRe", "main.appliedMessages", "main.ircServer", "main.network", "main.network[]", "main.raftDir", "main.raftDir[]", "main.useProtobuf", "main.useProtobuf[]", "modeCmd.Mode", "modeCmd.Param"},
    wall |-> {"FSM.ircstore", "FSM.lastSnapshotState[]", "FSM.sessionExpirationDur", "HTTP.ircServerUnlocked", "HTTP.ircStoreUnlocked", "HTTP.outputUnlocked", "IRCServer.Config", "IRCServer.Config[]", "IRCServer.channels[]", "IRCServer.lastProcessed", "IRCServer.nicks[]", "IRCServer.serverSessions", "IRCServer.serverSessions[]", "IRCServer.sessions[]", "IRCServer.svsholds[]", "LevelDBStore.db", "OutputStream.batch", "OutputStream.lastseen", "OutputStream.messagesCache[]", "Session.AwayMsg", "Session.Channels[]", "Session.LastActivity", "Session.LastNonPing", "Session.LastSolvedCaptcha", "Session.Nick", "Session.Operator", "Session.Pass", "Session.Realname", "Session.RemoteAddr", "Session.Server", "Session.Username", "Session.deleted", "Session.invitedTo[]", "Session.ircPrefix", "Session.lastClientMessageId", "Session.loggedIn", "Session.modes", "Session.svid", "channel.bans", "channel.bans[]", "channel.key", "channel.modes", "channel.nicks[]", "channel.nicks[][]", "channel.topic", "channel.topicNick", "channel.topicTime", "main.ircServer", "main.ircStore", "main.outputStream"}],
   \* 3  (*main.FSM).Snapshot
   [name |-> "FSM.Snapshot", threads |-> {"fsm"}, steps |-> <<
@@ -121,14 +127,11 @@ OpsDef == <<
      [k |-> "sec", l |-> "", m |-> "", seg |-> 5, rs |-> {"OutputStream.lastseen", "OutputStream.lastseen[]", "OutputStream.messagesCache"}, ws |-> {"OutputStream.messagesCache[]"}],
      [k |-> "rel", l |-> "OutputStream.cacheMu", m |-> "", seg |-> 0, rs |-> {}, ws |-> {}],
      [k |-> "rel", l |-> "OutputStream.messagesMu", m |-> "", seg |-> 0, rs |-> {}, ws |-> {}],
-     [k |-> "acq", l |-> "FSM.sessionExpirationMu", m |-> "W", seg |-> 0, rs |-> {}, ws |-> {}],
-     [k |-> "sec", l |-> "", m |-> "", seg |-> 6, rs |-> {}, ws |-> {"FSM.sessionExpirationDur"}],
-     [k |-> "rel", l |-> "FSM.sessionExpirationMu", m |-> "", seg |-> 0, rs |-> {}, ws |-> {}],
      [k |-> "acq", l |-> "LevelDBStore.mu", m |-> "W", seg |-> 0, rs |-> {}, ws |-> {}],
-     [k |-> "sec", l |-> "", m |-> "", seg |-> 7, rs |-> {"LevelDBStore.db"}, ws |-> {}],
+     [k |-> "sec", l |-> "", m |-> "", seg |-> 6, rs |-> {"LevelDBStore.db"}, ws |-> {}],
      [k |-> "rel", l |-> "LevelDBStore.mu", m |-> "", seg |-> 0, rs |-> {}, ws |-> {}]>>,
    rall |-> {"FSM.ircstore", "FSM.lastSnapshotState", "FSM.lastSnapshotState[][]", "FSM.sessionExpirationDur", "FSM.skipDeletionForCanary", "LevelDBStore.db", "OutputStream.db", "OutputStream.lastseen", "OutputStream.lastseen[]", "OutputStream.lastseen[][]", "OutputStream.messagesCache", "ircCommand.Func", "ircCommand.MinParams", "ircserver.Commands", "ircserver.Commands[]", "ircserver.ErrNoSuchSession", "ircserver.ErrSessionLimitReached", "ircserver.ErrSessionNotYetSeen", "ircserver.authOper", "ircserver.captchaChallengesSent", "ircserver.captchasFailed", "ircserver.captchasVerified", "ircserver.messagesProcessed", "ircserver.nickToLowerReplacer", "ircserver.validChannelRe", "ircserver.validNickRe", "main.canaryCompactionStart", "main.canaryCompactionStart[]", "main.outputStream", "modeCmd.Mode", "modeCmd.Param"},
-   wall |-> {"FSM.lastSnapshotState[]", "FSM.sessionExpirationDur", "OutputStream.batch", "OutputStream.lastseen", "OutputStream.messagesCache[]"}],
+   wall |-> {"FSM.lastSnapshotState[]", "OutputStream.batch", "OutputStream.lastseen", "OutputStream.messagesCache[]"}],
   \* 4  (*main.robustSnapshot).Persist
   [name |-> "robustSnapshot.Persist", threads |-> {"snap"}, steps |-> <<
      [k |-> "sec", l |-> "", m |-> "", seg |-> 1, rs |-> {"main.useProtobuf", "main.useProtobuf[]", "robustSnapshot.firstIndex", "robustSnapshot.lastIndex", "robustSnapshot.state", "robustSnapshot.state[]", "robustSnapshot.store"}, ws |-> {}],
@@ -260,7 +263,7 @@ OpsDef == <<
      [k |-> "acq", l |-> "OutputStream.cacheMu", m |-> "R", seg |-> 0, rs |-> {}, ws |-> {}],
      [k |-> "sec", l |-> "", m |-> "", seg |-> 2, rs |-> {"OutputStream.messagesCache", "OutputStream.messagesCache[]"}, ws |-> {}],
      [k |-> "rel", l |-> "OutputStream.cacheMu", m |-> "", seg |-> 0, rs |-> {}, ws |-> {}],
-     [k |-> "sec", l |-> "", m |-> "", seg |-> 3, rs |-> {"OutputStream.db", "messageBatch.Messages", "messageBatch.NextID"}, ws |-> {}],
+     [k |-> "sec", l |-> "", m |-> "", seg |-> 3, rs |-> {"OutputStream.db", "messageBatch.NextID"}, ws |-> {}],
      [k |-> "acq", l |-> "OutputStream.cacheMu", m |-> "W", seg |-> 0, rs |-> {}, ws |-> {}],
      [k |-> "sec", l |-> "", m |-> "", seg |-> 4, rs |-> {"OutputStream.messagesCache"}, ws |-> {"OutputStream.messagesCache[]"}],
      [k |-> "rel", l |-> "OutputStream.cacheMu", m |-> "", seg |-> 0, rs |-> {}, ws |-> {}],
@@ -320,14 +323,19 @@ OpsDef == <<
      [k |-> "sec", l |-> "", m |-> "", seg |-> 3, rs |-> {"IRCServer.lastProcessed", "ircserver.ErrNoSuchSession", "ircserver.ErrSessionNotYetSeen"}, ws |-> {}],
      [k |-> "rel", l |-> "IRCServer.lastProcessedMu", m |-> "", seg |-> 0, rs |-> {}, ws |-> {}],
      [k |-> "rel", l |-> "IRCServer.sessionsMu", m |-> "", seg |-> 0, rs |-> {}, ws |-> {}],
-     [k |-> "sec", l |-> "", m |-> "", seg |-> 4, rs |-> {"HTTP.raftNode", "Session.auth", "ircserver.ErrSessionNotYetSeen"}, ws |-> {}],
+     [k |-> "sec", l |-> "", m |-> "", seg |-> 4, rs |-> {"(*api.HTTP).handleGetMessages.cancel", "(*api.HTTP).handleGetMessages.sessionId", "HTTP.raftNode", "Session.auth", "ircserver.ErrSessionNotYetSeen"}, ws |-> {}],
      [k |-> "acq", l |-> "HTTP.getMessagesRequestsMu", m |-> "W", seg |-> 0, rs |-> {}, ws |-> {}],
-     [k |-> "sec", l |-> "", m |-> "", seg |-> 5, rs |-> {"HTTP.getMessagesRequests"}, ws |-> {"HTTP.getMessagesRequests[]"}],
+     [k |-> "sec", l |-> "", m |-> "", seg |-> 5, rs |-> {"(*api.HTTP).handleGetMessages.cancel", "(*api.HTTP).handleGetMessages.sessionId", "HTTP.getMessagesRequests"}, ws |-> {"HTTP.getMessagesRequests[]"}],
      [k |-> "rel", l |-> "HTTP.getMessagesRequestsMu", m |-> "", seg |-> 0, rs |-> {}, ws |-> {}],
      [k |-> "acq", l |-> "IRCServer.ConfigMu", m |-> "R", seg |-> 0, rs |-> {}, ws |-> {}],
      [k |-> "sec", l |-> "", m |-> "", seg |-> 6, rs |-> {"IRCServer.Config", "IRCServer.Config[]"}, ws |-> {}],
-     [k |-> "rel", l |-> "IRCServer.ConfigMu", m |-> "", seg |-> 0, rs |-> {}, ws |-> {}]>>,
-   rall |-> {"HTTP.getMessagesRequests", "HTTP.ircServerUnlocked", "HTTP.outputUnlocked", "HTTP.raftNode", "IRCServer.Config", "IRCServer.Config[]", "IRCServer.lastProcessed", "IRCServer.sessions", "IRCServer.sessions[]", "Session.Nick", "Session.auth", "ircserver.ErrNoSuchSession", "ircserver.ErrSessionNotYetSeen"},
+     [k |-> "rel", l |-> "IRCServer.ConfigMu", m |-> "", seg |-> 0, rs |-> {}, ws |-> {}],
+     [k |-> "acq", l |-> "HTTP.getMessagesRequestsMu", m |-> "W", seg |-> 0, rs |-> {}, ws |-> {}],
+     [k |-> "acq", l |-> "HTTP.mu", m |-> "W", seg |-> 0, rs |-> {}, ws |-> {}],
+     [k |-> "sec", l |-> "", m |-> "", seg |-> 7, rs |-> {"HTTP.outputUnlocked"}, ws |-> {}],
+     [k |-> "rel", l |-> "HTTP.mu", m |-> "", seg |-> 0, rs |-> {}, ws |-> {}],
+     [k |-> "rel", l |-> "HTTP.getMessagesRequestsMu", m |-> "", seg |-> 0, rs |-> {}, ws |-> {}]>>,
+   rall |-> {"(*api.HTTP).handleGetMessages.cancel", "(*api.HTTP).handleGetMessages.sessionId", "HTTP.getMessagesRequests", "HTTP.ircServerUnlocked", "HTTP.outputUnlocked", "HTTP.raftNode", "IRCServer.Config", "IRCServer.Config[]", "IRCServer.lastProcessed", "IRCServer.sessions", "IRCServer.sessions[]", "Session.Nick", "Session.auth", "ircserver.ErrNoSuchSession", "ircserver.ErrSessionNotYetSeen"},
    wall |-> {"HTTP.getMessagesRequests[]"}],
   \* 20  (*api.HTTP).handleIrclog
   [name |-> "HTTP.handleIrclog", threads |-> {"http"}, steps |-> <<
@@ -673,9 +681,12 @@ OpsDef == <<
   \* 52  (*api.HTTP).setGetMessagesRequests
   [name |-> "HTTP.setGetMessagesRequests", threads |-> {"http"}, steps |-> <<
      [k |-> "acq", l |-> "HTTP.getMessagesRequestsMu", m |-> "W", seg |-> 0, rs |-> {}, ws |-> {}],
-     [k |-> "sec", l |-> "", m |-> "", seg |-> 1, rs |-> {"HTTP.getMessagesRequests"}, ws |-> {"HTTP.getMessagesRequests[]"}],
+     [k |-> "sec", l |-> "", m |-> "", seg |-> 1, rs |-> {"(*api.HTTP).handleGetMessages.cancel", "(*api.HTTP).handleGetMessages.sessionId", "HTTP.getMessagesRequests"}, ws |-> {"HTTP.getMessagesRequests[]"}],
+     [k |-> "acq", l |-> "HTTP.mu", m |-> "W", seg |-> 0, rs |-> {}, ws |-> {}],
+     [k |-> "sec", l |-> "", m |-> "", seg |-> 2, rs |-> {"HTTP.outputUnlocked"}, ws |-> {}],
+     [k |-> "rel", l |-> "HTTP.mu", m |-> "", seg |-> 0, rs |-> {}, ws |-> {}],
      [k |-> "rel", l |-> "HTTP.getMessagesRequestsMu", m |-> "", seg |-> 0, rs |-> {}, ws |-> {}]>>,
-   rall |-> {"HTTP.getMessagesRequests"},
+   rall |-> {"(*api.HTTP).handleGetMessages.cancel", "(*api.HTTP).handleGetMessages.sessionId", "HTTP.getMessagesRequests", "HTTP.outputUnlocked"},
    wall |-> {"HTTP.getMessagesRequests[]"}],
   \* 53  (*ircserver.IRCServer).Banned
   [name |-> "IRCServer.Banned", threads |-> {"fsm"}, steps |-> <<
@@ -839,12 +850,13 @@ OpsDef == <<
   \* 72  (*ircserver.IRCServer).Unmarshal
   [name |-> "IRCServer.Unmarshal", threads |-> {"fsm"}, steps |-> <<
      [k |-> "acq", l |-> "IRCServer.sessionsMu", m |-> "W", seg |-> 0, rs |-> {}, ws |-> {}],
-     [k |-> "acq", l |-> "IRCServer.ConfigMu", m |-> "W", seg |-> 0, rs |-> {}, ws |-> {}],
      [k |-> "acq", l |-> "IRCServer.lastProcessedMu", m |-> "W", seg |-> 0, rs |-> {}, ws |-> {}],
-     [k |-> "sec", l |-> "", m |-> "", seg |-> 1, rs |-> {"IRCServer.channels", "IRCServer.nicks", "IRCServer.sessions", "IRCServer.svsholds", "ircserver.nickToLowerReplacer"}, ws |-> {"IRCServer.Config", "IRCServer.channels[]", "IRCServer.lastProcessed", "IRCServer.nicks[]", "IRCServer.serverSessions", "IRCServer.serverSessions[]", "IRCServer.sessions[]", "IRCServer.svsholds[]"}],
+     [k |-> "sec", l |-> "", m |-> "", seg |-> 1, rs |-> {"IRCServer.channels", "IRCServer.nicks", "IRCServer.sessions", "IRCServer.svsholds", "ircserver.nickToLowerReplacer"}, ws |-> {"IRCServer.channels[]", "IRCServer.lastProcessed", "IRCServer.nicks[]", "IRCServer.serverSessions", "IRCServer.serverSessions[]", "IRCServer.sessions[]", "IRCServer.svsholds[]"}],
      [k |-> "rel", l |-> "IRCServer.lastProcessedMu", m |-> "", seg |-> 0, rs |-> {}, ws |-> {}],
-     [k |-> "rel", l |-> "IRCServer.ConfigMu", m |-> "", seg |-> 0, rs |-> {}, ws |-> {}],
-     [k |-> "rel", l |-> "IRCServer.sessionsMu", m |-> "", seg |-> 0, rs |-> {}, ws |-> {}]>>,
+     [k |-> "rel", l |-> "IRCServer.sessionsMu", m |-> "", seg |-> 0, rs |-> {}, ws |-> {}],
+     [k |-> "acq", l |-> "IRCServer.ConfigMu", m |-> "W", seg |-> 0, rs |-> {}, ws |-> {}],
+     [k |-> "sec", l |-> "", m |-> "", seg |-> 2, rs |-> {}, ws |-> {"IRCServer.Config"}],
+     [k |-> "rel", l |-> "IRCServer.ConfigMu", m |-> "", seg |-> 0, rs |-> {}, ws |-> {}]>>,
    rall |-> {"IRCServer.channels", "IRCServer.nicks", "IRCServer.sessions", "IRCServer.svsholds", "ircserver.nickToLowerReplacer"},
    wall |-> {"IRCServer.Config", "IRCServer.channels[]", "IRCServer.lastProcessed", "IRCServer.nicks[]", "IRCServer.serverSessions", "IRCServer.serverSessions[]", "IRCServer.sessions[]", "IRCServer.svsholds[]"}],
   \* 73  (*ircserver.IRCServer).UpdateLastClientMessageID
@@ -932,9 +944,9 @@ OpsDef == <<
   \* 81  (*raftstore.LevelDBStore).ConvertToProto
   [name |-> "LevelDBStore.ConvertToProto", threads |-> {"fsm"}, steps |-> <<
      [k |-> "acq", l |-> "LevelDBStore.mu", m |-> "W", seg |-> 0, rs |-> {}, ws |-> {}],
-     [k |-> "sec", l |-> "", m |-> "", seg |-> 1, rs |-> {"LevelDBStore.db", "LevelDBStore.dir"}, ws |-> {}],
+     [k |-> "sec", l |-> "", m |-> "", seg |-> 1, rs |-> {"(*raftstore.LevelDBStore).ConvertToProto.start", "LevelDBStore.db", "LevelDBStore.dir"}, ws |-> {}],
      [k |-> "rel", l |-> "LevelDBStore.mu", m |-> "", seg |-> 0, rs |-> {}, ws |-> {}]>>,
-   rall |-> {"LevelDBStore.db", "LevelDBStore.dir"},
+   rall |-> {"(*raftstore.LevelDBStore).ConvertToProto.start", "LevelDBStore.db", "LevelDBStore.dir"},
    wall |-> {}],
   \* 82  (*raftstore.LevelDBStore).DeleteRange
   [name |-> "LevelDBStore.DeleteRange", threads |-> {"fsm"}, steps |-> <<
